@@ -1137,7 +1137,7 @@ theorem inv_step {s s' : State} (inv : Inv s) (uq : OpsUniq s) {e : TEv} (h : st
       · split at h
         · cases h
           split
-          · exact inv_setInst_book inv hx rfl rfl rfl (fun _ hm => by cases hm) rfl
+          · exact inv_setInst_book inv hx rfl rfl rfl (fun _ hm => hm) rfl
           · exact inv_setInst_book inv hx rfl rfl rfl (fun _ hm => hm) rfl
         · cases h; exact inv
     · cases h; exact inv
